@@ -33,7 +33,8 @@ def _fill_loops(fn):
                 preds.setdefault(x, []).append(i)
     for h, hb in enumerate(blocks):
         ht = hb["term"]
-        if ht["t"] != "call" or not _res(ht).endswith("IterMut<'a, T> as core::iter::Iterator>::next") or ht.get("to") is None:
+        skipped = ht["t"] == "call" and _res(ht) == "<core::iter::Skip<I> as core::iter::Iterator>::next" and (ht.get("gargs") or [""])[0].startswith("core::iter::Skip<core::slice::IterMut<")
+        if ht["t"] != "call" or not (_res(ht).endswith("IterMut<'a, T> as core::iter::Iterator>::next") or skipped) or ht.get("to") is None:
             continue
         # header: only reborrows of the iterator local
         it = None
@@ -111,6 +112,55 @@ def _fill_loops(fn):
             continue
         ct = blocks[call_b]["term"]
         r = _res(ct)
+        if skipped:
+            # `for x in s.iter_mut().skip(n) { *x = C }` is `s[n..].fill(C)` (which additionally panics when n > len: the reading is the
+            # stricter one).  Chain: T1 = iter_mut(S); T2 = skip(T1, n); T3 = into_iter(T2); IT = T3
+            def producer(local, to):
+                c = [i for i, b in enumerate(blocks) if b["term"]["t"] == "call" and not b["term"]["dest"]["p"] and b["term"]["dest"]["l"] == local]
+                return c[0] if len(c) == 1 and blocks[c[0]]["term"].get("to") == to else None
+            if r.endswith("IntoIterator>::into_iter") and len(ct["args"]) == 1 and _plain(ct["args"][0]):
+                ks = producer(ct["args"][0]["pl"]["l"], call_b)
+            else:
+                continue
+            if ks is None:
+                continue
+            kt = blocks[ks]["term"]
+            if _res(kt) != "core::iter::Iterator::skip" or len(kt["args"]) != 2 or not _plain(kt["args"][0]):
+                continue
+            ki = producer(kt["args"][0]["pl"]["l"], ks)
+            if ki is None:
+                continue
+            it_ = blocks[ki]["term"]
+            if not _res(it_).endswith("core::slice::<impl [T]>::iter_mut") or len(it_["args"]) != 1 or not _plain(it_["args"][0]):
+                continue
+            import json
+            used = sum(1 for i, b in enumerate(blocks) if i not in (h, entry[0], call_b, ks, ki) and ('"l": %d,' % it) in json.dumps(b))
+            if used:
+                continue
+            src = it_["args"][0]
+            name = "core::slice::index::<impl core::ops::IndexMut<I> for [T]>::index_mut"
+            base_ty = (fn["locals"][src["pl"]["l"]]["ty"] or "&mut [u8]").replace("&mut ", "", 1)
+            for s_ in blocks[ki]["stmts"]:
+                if s_["s"] == "assign" and not s_["lhs"]["p"] and s_["lhs"]["l"] == src["pl"]["l"] and s_["rv"]["r"] == "cast" and "Unsize" in s_["rv"].get("kind", "") and _plain(s_["rv"]["a"]):
+                    src = s_["rv"]["a"]
+                    name = "core::array::<impl core::ops::IndexMut<I> for [T; N]>::index_mut"
+                    base_ty = (src["pl"]["ty"] or "").replace("&mut ", "", 1)
+            rg, sl, unit = len(fn["locals"]), len(fn["locals"]) + 1, len(fn["locals"]) + 2
+            fn["locals"].append({"ty": "core::ops::RangeFrom<usize>", "name": None, "mut": True})
+            fn["locals"].append({"ty": "&mut [u8]", "name": None, "mut": True})
+            fn["locals"].append({"ty": "()", "name": None, "mut": True})
+            sp = kt["sp"]
+            blocks[ki]["term"] = {"t": "goto", "to": ks}
+            blocks[ks]["stmts"].append({"s": "assign", "lhs": {"l": rg, "p": [], "ty": "core::ops::RangeFrom<usize>"},
+                                        "rv": {"r": "agg", "kind": {"adt": "core::ops::RangeFrom", "variant": "RangeFrom", "fields": ["start"]}, "ops": [kt["args"][1]]}, "sp": sp})
+            blocks[ks]["term"] = {"t": "call", "callee": "core::ops::IndexMut::index_mut", "resolved": name, "local": False,
+                                  "gargs": [base_ty, "core::ops::RangeFrom<usize>"], "args": [src, {"k": "move", "pl": {"l": rg, "p": [], "ty": "core::ops::RangeFrom<usize>"}}],
+                                  "dest": {"l": sl, "p": [], "ty": "&mut [u8]"}, "to": call_b, "fop": None, "sp": sp}
+            blocks[call_b]["term"] = {"t": "call", "callee": "core::slice::<impl [T]>::fill", "resolved": "core::slice::<impl [T]>::fill", "local": False,
+                                      "gargs": ["u8"], "args": [{"k": "move", "pl": {"l": sl, "p": [], "ty": "&mut [u8]"}}, val], "dest": {"l": unit, "p": [], "ty": "()"},
+                                      "to": exit_b, "fop": None, "sp": bb["stmts"][0]["sp"] if bb["stmts"] else sp, "loop_idiom": "fill"}
+            n += 1
+            continue
         if not (r.endswith("IntoIterator for &'a mut [T]>::into_iter") or r.endswith("core::slice::<impl [T]>::iter_mut")) or len(ct["args"]) != 1:
             continue
         # the iterator and the yielded reference are used nowhere else
